@@ -941,6 +941,18 @@ func (e *Engine) verifyFunc(key string) (c *Ctx, err error) {
 		s.assume(c.cevalBool(r.Expr, s, nil, fi.decl.Body.Lbrace+1))
 	}
 	c.heapGet(s, "X.alloc", sA1)
+	// slice element types whose elements have their address taken somewhere in the body
+	c.escTypes = map[string]bool{}
+	ast.Inspect(fi.decl.Body, func(n ast.Node) bool {
+		if u, ok := n.(*ast.UnaryExpr); ok && u.Op == token.AND {
+			if ix, ok := unparen(u.X).(*ast.IndexExpr); ok {
+				if st, ok := c.typeOf(ix.X).Underlying().(*types.Slice); ok {
+					c.escTypes[memKey(st.Elem())] = true
+				}
+			}
+		}
+		return true
+	})
 	for kk, vv := range s.heap {
 		c.entry.heap[kk] = vv
 	}
@@ -978,6 +990,7 @@ func (e *Engine) verifyFunc(key string) (c *Ctx, err error) {
 					eq(c.heapGet(ex.s, "X.nheld", sInt), c.heapGet(c.entry, "X.nheld", sInt)), nil)
 			}
 			for i, en := range k.Ensures {
+				c.curTags = en.Tags
 				g := c.cevalBool(en.Expr, ex.s, c.entryParams(), fi.decl.Body.Lbrace+1)
 				c.oblige(ex.s, fmt.Sprintf("post%d@%s", i+1, strings.ReplaceAll(label, " ", "")), en.Text, pos, g, en.Tags)
 			}
@@ -1016,7 +1029,12 @@ func (c *Ctx) atClauses(s *State, label string, pos token.Pos) {
 	for _, a := range c.con.Ats[label] {
 		switch a.Kind {
 		case "assert":
+			c.curTags = a.Tags
+			nb := len(c.bindingErrors)
 			g := c.cevalBool(a.Expr, s, c.atArgs, pos)
+			if len(c.bindingErrors) > nb {
+				continue // reported as contract-binding; neither obliged nor assumed
+			}
 			c.oblige(s, "assert@"+strings.ReplaceAll(label, " ", ""), a.Text, pos, g, a.Tags)
 			s.assume(g)
 		case "assume-shared":
